@@ -40,6 +40,18 @@ def run(ctx, replay):
         e = events[i - 1]
         rec = dict(kind="panic" if e["panic"] else ("float:" + e["float_err"] if not e["float_ok"] else "aggregate-or-invalid-marker"), fam=e["fam"])
         ctx.violation(rec, dict(event=e))
+    # the same cells in a 32-bit build (the aggregates are 64-bit values held in int / uint fields elsewhere) and as a static
+    # binary in an empty root directory
+    variants = [] if replay else [("GOARCH=386", ctx.trace_32bit(["c08", consts], trace)), ("static binary in an empty root directory", ctx.trace_bare(["c08", consts], trace))]
+    for build, tv in variants:
+        if not tv:
+            continue
+        evv = vlib.read_ndjson(tv)
+        resv = ctx.tlc_trace("C08_Trace", "C08_Trace.cfg", tv, timeout=1500)
+        ctx.traces += 1
+        for j in resv["bad"]:
+            e = evv[j - 1]
+            ctx.violation(dict(kind="other-build-or-environment", fam=e["fam"], con=e["con"], build=build), dict(event=e, build=build))
     return ctx.finish(
         level="model_checking",
         rule="one case = one decoded signal cell of an encoder-generated MSM4/MSM7 frame (4 constellations x 2 families): whole ms sweeps 0..255 incl. the invalid "
